@@ -75,22 +75,36 @@ def confirm(prop, which):
 
 
 def detect(prop, which, checks):
+    """By default the patch is applied to /repo itself and undone straight
+    afterwards; with DETECT_IN_WORKTREE=1 a private detached worktree of /repo's HEAD is
+    used instead (SPOWTD_REPO points the checks at it), so that several detections can
+    run side by side and /repo is never touched."""
     patch = '/tmp/seed{}-{}/patch_{}.diff'.format(ROUND, prop, which)
-    assert sh('git -C /repo diff --quiet').returncode == 0, '/repo has local changes'
-    a = sh('git -C /repo apply {}'.format(patch))
-    if a.returncode != 0:
-        return {'error': 'patch does not apply to /repo: ' + a.stderr[-300:]}
+    private = os.environ.get('DETECT_IN_WORKTREE') == '1'
+    if private:
+        repo = '/tmp/dwt-{}-{}-{}'.format(prop, which, os.getpid())
+        a = sh('git -C /repo worktree add --detach {} HEAD'.format(repo))
+        assert a.returncode == 0, a.stderr
+    else:
+        repo = '/repo'
+        assert sh('git -C /repo diff --quiet').returncode == 0, '/repo has local changes'
     out = {}
     tier = os.environ.get('TIER', 'quick')
     try:
+        a = sh('git -C {} apply {}'.format(repo, patch))
+        if a.returncode != 0:
+            return {'error': 'patch does not apply: ' + a.stderr[-300:]}
         for cid in checks:
             vdir = os.environ.get('VERIF_DIR', HERE)
-            p = sh('cd {0} && SPOWTD_VERIF_HOME={0} ./check {1} {2}'.format(vdir, cid, tier), timeout=7200)
+            p = sh('cd {0} && SPOWTD_REPO={3} SPOWTD_VERIF_HOME={0} ./check {1} {2}'.format(vdir, cid, tier, repo), timeout=7200)
             keys = [ln.split('key=')[1].split(' ')[0] for ln in p.stdout.splitlines() if ln.strip().startswith('key=')]
             out[cid] = {'verdict': {0: 'held', 1: 'VIOLATION', 2: 'inconclusive'}.get(p.returncode, str(p.returncode)),
                         'keys': keys[:5], 'tier': tier}
     finally:
-        sh('git -C /repo checkout -- .')
+        if private:
+            sh('git -C /repo worktree remove --force {}'.format(repo))
+        else:
+            sh('git -C /repo checkout -- .')
     return out
 
 
